@@ -35,6 +35,10 @@ def block_points(script, b):
     cell = tuple(script["cells"][b])
     pts = unit_cell_points(cell, size)
     ids = [lattice_vertex_id(cell, c) for c in range(8)]
+    spacing = geo.get("spacing")
+    if spacing:
+        # non-uniform lattice: coordinate k of direction g lies at spacing[g][k] (blocks of very different sizes)
+        pts = [tuple(float(spacing[g][vid[g]]) for g in range(3)) for vid in ids]
     lvl = JITTER_LEVELS[geo.get("jitter", 0)]
     if lvl:
         out = []
